@@ -29,7 +29,8 @@ THEOREMS = [
 RULE = ("per operator: a hot TestScheduler timeline (0..8 elements from a small domain with duplicates and falsy values, times with ties, "
         "ending completed/error/open, 20% with notifications after the terminal) or the same list pushed synchronously inside subscribe "
         "(lagging disposal); parameters: seeds/defaults incl. None, predicate/key/accumulator/comparer tables incl. raising entries, rank-induced "
-        "and arbitrary comparers; sequence_equal: two hot timelines (ties, errors) or source + iterable. Compared: full timed output and the "
+        "and arbitrary comparers; sequence_equal: two hot timelines (ties, errors) or source + iterable of several iterable types (list, tuple, generator, iterator, "
+        "dict keys, one-element set, itertools.chain, map object, deque, a class with only __iter__). Compared: full timed output and the "
         "exceptions escaping to the emitter. non-trivial = the operator emitted something")
 ASSUMPTIONS = [
     "single-threaded / virtual-time execution; one run of an operator is the list of notifications its source(s) deliver",
@@ -180,6 +181,7 @@ def gen_seq(rng):
     if kind < 0.3:  # iterable second
         it = mutate(rng, lvals, dom)
         c["iter"] = [enc(v) for v in it]
+        c["iter_type"] = rng.choice(ITER_TYPES)
         c["t0"] = 200
     else:
         if rng.random() < 0.6:  # same elements at other times, perhaps mutated
@@ -216,6 +218,52 @@ def gen_seq(rng):
     return c
 
 
+ITER_TYPES = ["list", "tuple", "generator", "iter", "dict_keys", "set1", "chain", "custom", "map", "deque"]
+
+
+class OnlyIter:
+    """an iterable that is nothing but iterable (no __len__, no __getitem__)"""
+
+    def __init__(self, vals):
+        self.vals = vals
+
+    def __iter__(self):
+        return iter(list(self.vals))
+
+
+def make_iterable(kind, vals):
+    """the iterable second argument of sequence_equal, as different iterable TYPES (one-shot ones are built per run)"""
+    import collections
+    import itertools
+
+    vals = list(vals)
+
+    def distinct_hashable():
+        try:
+            return len(set(vals)) == len(vals)
+        except TypeError:
+            return False
+    if kind == "tuple":
+        return tuple(vals)
+    if kind == "generator":
+        return (v for v in vals)
+    if kind == "iter":
+        return iter(vals)
+    if kind == "dict_keys" and distinct_hashable():
+        return {v: None for v in vals}.keys()
+    if kind == "set1" and len(vals) <= 1 and distinct_hashable():
+        return set(vals)
+    if kind == "chain":
+        return itertools.chain(vals[: len(vals) // 2], vals[len(vals) // 2:])
+    if kind == "custom":
+        return OnlyIter(vals)
+    if kind == "map":
+        return map(lambda v: v, vals)
+    if kind == "deque":
+        return collections.deque(vals)
+    return vals
+
+
 def mutate(rng, vals, dom):
     vals = list(vals)
     r = rng.random()
@@ -243,7 +291,7 @@ def cases(rng, tier):
 
 
 def model_request(case):
-    c = {k: v for k, v in case.items() if k not in ("mode", "cmp_kind", "rank", "cmp_sym", "unhashable")}
+    c = {k: v for k, v in case.items() if k not in ("mode", "cmp_kind", "rank", "cmp_sym", "unhashable", "iter_type")}
     c["lag"] = case.get("mode") == "sync"
     if case.get("mode") == "sync":  # inputs are tagged by their index
         c["src"] = [[i, m[1]] for i, m in enumerate(case["src"])]
@@ -360,7 +408,7 @@ def impl(case):
         sched = TestScheduler()
         left = sched.create_hot_observable(*recorded(case["left"]))
         if "iter" in case:
-            second = [dec(v) for v in case["iter"]]
+            second = make_iterable(case.get("iter_type", "list"), [dec(v) for v in case["iter"]])
         else:
             second = sched.create_hot_observable(*recorded(case["right"]))
         cmp = fn(case.get("cmp"))
@@ -662,6 +710,8 @@ def bucket(case, out):
                           (nm if nm in (NOEL, "Exception", "TypeError", "ValueError") else "callback"))
     if op == "sequence_equal":
         yield "seq:" + ("iter" if "iter" in case else "obs") + (":cmp" if case.get("cmp") else "")
+        if "iter" in case:
+            yield "seq-iter-type:" + case.get("iter_type", "list")
         if o and o[0][1][0] == "N":
             yield "seq-result:" + str(o[0][1][1])
     if any(k in case for k in ("pred", "key", "cmp", "acc")):
